@@ -54,16 +54,22 @@ _KINDS = {"C05": ["wrap", "c05"], "C09": ["c09"], "C13": ["c13"], "C14": ["c14"]
           "C18": ["dedent", "c18"], "C19": ["indent"], "C06": ["frag"], "C07": ["frag", "wrap"], "C03": ["frag", "wrap"]}
 for _k, _v in _KINDS.items():
     PROPS[_k]["replay_kinds"] = _v
-# step-level validation of wrap() against the MC_Wrap machine (hooks): every run for C01 / C07, thorough for the rest of the family
-for _k, _v in {"C01": "quick", "C07": "quick", "C02": "thorough", "C03": "thorough", "C05": "thorough", "C08": "thorough", "C09": "thorough"}.items():
-    PROPS[_k]["steps"] = _v
+# step-level validation against the step machines through the hooks ("quick": every run, "thorough": thorough tier only):
+# wrap() / MC_Wrap (STEPS), unfill() / MC_Refill (USTEPS), dedent() + indent() / MC_Indent (DSTEPS), fill_inplace() / MC_Inplace (ISTEPS),
+# wrap_columns() / MC_Columns (CSTEPS), wrap_first_fit() / MC_FirstFit (FFSTEPS), wrap_optimal_fit() / MC_Optimal (OSTEPS)
+_STEPGENS = {
+    "C01": [("STEPS", "quick")], "C07": [("STEPS", "quick"), ("FFSTEPS", "quick")],
+    "C02": [("STEPS", "thorough")], "C03": [("OSTEPS", "quick"), ("STEPS", "thorough")], "C05": [("STEPS", "thorough")], "C08": [("STEPS", "thorough")],
+    "C09": [("STEPS", "thorough")], "C06": [("FFSTEPS", "quick"), ("OSTEPS", "quick")], "C15": [("USTEPS", "quick")],
+    "C17": [("ISTEPS", "quick")], "C18": [("DSTEPS", "quick")], "C19": [("DSTEPS", "quick")], "C20": [("CSTEPS", "quick")],
+}
+for _k, _v in _STEPGENS.items():
+    PROPS[_k]["stepgens"] = [{"gen": g, "tier": t} for g, t in _v]
 _FFSYM = {"module": "FirstFitSym.tla", "inv": "Inv", "length": 9, "tiers": ["thorough"],
           "what": "wrap_first_fit with 8 fragments whose widths, whitespace widths, penalty widths and the width of every line are arbitrary "
                   "non-negative integers (symbolic): partition shape and the greedy rule hold for all of them"}
 PROPS["C06"]["apalache"] = [_FFSYM]
 PROPS["C07"]["apalache"] = [_FFSYM]
-PROPS["C15"]["steps"] = "quick"          # unfill() step by step against MC_Refill (spec/TraceRefill.tla)
-PROPS["C15"]["steps_gen"] = "USTEPS"
 for _p in PROPS.values():
     _p.setdefault("dev", PINNED)
     _p.setdefault("mc", [])
